@@ -4,5 +4,7 @@ MCIds == {1, 2, 3}
 MCExtents == {<<-4, 3>>, <<-2, 5>>, <<-6, -1>>, <<0, 2>>}
 \* emission for B2: the aligned state with what it came from
 Emit == phase # "aligned" \/ PrintT("@@" \o ToJson([before |-> [o \in Ids |-> [lo |-> before[o].nmin, hi |-> before[o].nmax, val |-> before[o].val]],
-                                                     after |-> [o \in Ids |-> [lo |-> maps[o].nmin, hi |-> maps[o].nmax, idx |-> maps[o].idx, val |-> maps[o].val]]]))
+                                                     after |-> [o \in Ids |-> [lo |-> maps[o].nmin, hi |-> maps[o].nmax, idx |-> maps[o].idx, val |-> maps[o].val,
+                                                                                pos |-> [i \in 1..Len(maps[o].idx) |-> i - 1]]],
+                                                     post |-> post]))
 ==============================================================================
